@@ -2699,3 +2699,114 @@ R("adddirty-count-one-at-creation", ["C16"],
 	j.dirties = append(j.dirties, dirty{address: addr, changes: 1})
 	j.addressToJournalIndex[addr] = len(j.dirties) - 1
 }"""))
+
+# ------------------------------------------------------------------ round 3, wave 2 rules
+M("netdelegate-reads-without-selecting", "C07", "C07.sticky",
+  ("action/network_delegation/add_network_delegation.go", "ctx.NetwkDelegators.Deleg.WithPrefix(network_delegation.ActiveType).Get(", "ctx.NetwkDelegators.Deleg.Get(", 1))
+M("consume-skips-zero", "C13", "C13.schedule",
+  ("data/rewards/store_cumulative.go", """	// accumulates total distributed rewards
+	err := rws.addTotalDistributedRewards(consumed)""", """	if consumed.IsZero() {
+		return nil
+	}
+	// accumulates total distributed rewards
+	err := rws.addTotalDistributedRewards(consumed)"""))
+R("consume-year-call-hoisted", ["C13"],
+  ("data/rewards/store_cumulative.go", """	if !calc.cached.burnedout {
+		_, _, lastInCycle := rws.calculator.getCycleNo()
+		err = rws.addYearDistributedRewards(calc.cached.year, consumed, lastInCycle)
+	}
+""", """	if calc.cached.burnedout {
+		return nil
+	}
+	_, _, lastInCycle := rws.calculator.getCycleNo()
+	err = rws.addYearDistributedRewards(calc.cached.year, consumed, lastInCycle)
+"""))
+M("reward-load-rebuilds-interval", "C13", "C13.dump",
+  ("data/rewards/store.go", """		key := append(rs.prefixIntervals, storage.StoreKey(strconv.FormatInt(interval.LastHeight, 10))...)
+		data, err := rs.szlr.Serialize(interval)
+		if err != nil {
+			return err
+		}
+		err = rs.State.Set(key, data)
+		if err != nil {
+			return err
+		}""", """		err := rs.SetInterval(interval.LastHeight)
+		if err != nil {
+			return err
+		}"""))
+R("reward-load-interval-by-fields", ["C13"],
+  ("data/rewards/store.go", """		data, err := rs.szlr.Serialize(interval)
+		if err != nil {
+			return err
+		}
+		err = rs.State.Set(key, data)""", """		data, err := rs.szlr.Serialize(&Interval{LastIndex: interval.LastIndex, LastHeight: interval.LastHeight})
+		if err != nil {
+			return err
+		}
+		err = rs.State.Set(key, data)"""))
+FIN = "action/eth/check_finalty.go"
+M("burn-helper-stores-a-reread-copy", "C15", "C15.persist",
+  (FIN, """	tracker.State = trackerlib.Released
+	err := ctx.ETHTrackers.WithPrefixType(trackerlib.PrefixOngoing).Set(tracker)
+	if err != nil {
+		return err
+	}
+
+	return nil
+}
+
+func burnERC20Tokens(""", """	stored, err := ctx.ETHTrackers.WithPrefixType(trackerlib.PrefixOngoing).Get(tracker.TrackerName)
+	if err != nil {
+		return err
+	}
+	stored.State = trackerlib.Released
+	return ctx.ETHTrackers.WithPrefixType(trackerlib.PrefixOngoing).Set(stored)
+}
+
+func burnERC20Tokens("""))
+R("burn-helper-shared-release", ["C15"],
+  (FIN, """	tracker.State = trackerlib.Released
+	err := ctx.ETHTrackers.WithPrefixType(trackerlib.PrefixOngoing).Set(tracker)
+	if err != nil {
+		return err
+	}
+
+	return nil
+}
+
+func burnERC20Tokens(""", """	return releaseVoted(ctx, tracker)
+}
+
+func releaseVoted(ctx *action.Context, tracker *trackerlib.Tracker) error {
+	tracker.State = trackerlib.Released
+	return ctx.ETHTrackers.WithPrefixType(trackerlib.PrefixOngoing).Set(tracker)
+}
+
+func burnERC20Tokens("""))
+M("clean-drops-name", "C15", "C15.identity",
+  ("data/ethereum/tracker.go", """		Type:        t.Type,
+		State:       t.State,
+		TrackerName: t.TrackerName,""", """		Type:  t.Type,
+		State: t.State,"""))
+M("decode-tx-lenient", "C15", "C15.identity",
+  ("chains/ethereum/offline_chain_driver.go", "	err := rlp.DecodeBytes(data, tx)", "	err := rlp.Decode(bytes.NewReader(data), tx)"))
+M("create-accepts-goal-met", "C14", "C14.goal",
+  ("action/governance/createProposal.go", "	if coinGoal.LessThanEqualCoin(coin) {", "	if coinGoal.LessThanCoin(coin) {"))
+R("create-goal-check-other-way-round", ["C14"],
+  ("action/governance/createProposal.go", """	if coinGoal.LessThanEqualCoin(coin) {
+		return helpers.LogAndReturnFalse(ctx.Logger, action.ErrInvalidAmount, createProposal.Tags(), errors.New("Funding More than Funding goal"))
+	}""", """	if !coin.LessThanCoin(coinGoal) {
+		return helpers.LogAndReturnFalse(ctx.Logger, action.ErrInvalidAmount, createProposal.Tags(), errors.New("Funding More than Funding goal"))
+	}"""))
+M("current-funds-by-iteration", "C14", "C14.total",
+  ("data/governance/proposal_fund_store.go", """	keyTotal := assembleTotalFundsKey(proposalID)
+	funds, err := pf.get(keyTotal)
+	if err != nil {
+		funds = balance.NewAmount(0)
+	}
+	return funds""", """	funds := balance.NewAmount(0)
+	pf.GetFundsForProposalID(proposalID, func(id ProposalID, fundingAddr keys.Address, amt *balance.Amount) ProposalFund {
+		funds = funds.Plus(*amt)
+		return ProposalFund{}
+	})
+	return funds"""))
